@@ -296,7 +296,7 @@ def doTrav {X Y : Type} (F : Flavour X Y) (io : IO X Y) (d : Nat) (exact : Bool)
     match start with
     | some st =>
       let (evs, done) := traverse F st d exact bs
-      (" | ".intercalate (evs.map (showEvent io))) ++ (if done then "" else " | OUT-OF-FUEL")
+      (" | ".intercalate (evs.map (showEvent io))) ++ (if done.isSome then "" else " | OUT-OF-FUEL")
     | none => "bad-op"
   | none => "bad-op"
 
